@@ -27,7 +27,7 @@ reg("C06", "proof",
     "(non-linear real arithmetic); loop_refinement per-pixel contract, bounds and prange race-freedom obligations.",
     assumptions=["costs are finite or NaN (never +-inf) -- established by the matching-cost contracts of C02"])
 
-FIX_COMMITS = ["c8eaaa2"]
+FIX_COMMITS = ["c8eaaa2", "39f21c5"]
 NOT_YET = {}
 
 reg("C11", "proof",
